@@ -17,6 +17,7 @@ import json, os, re, sys, subprocess, random
 sys.path.insert(0, os.path.dirname(os.path.abspath(__file__)))
 import vlib
 from vlib import VERIF
+import check_lattice
 
 SPEC = os.path.join(VERIF, "spec", "Lock")
 LEVELS = ["pos", "vel", "acc"]
@@ -79,7 +80,9 @@ def main():
     cov["states"] += r.distinct
     cov["transitions"] += r.states
     cov["design_check"] = {"distinct_states": r.distinct, "properties": ["TypeOK", "Honoured", "LockWins", "PrescribeIdempotent", "HandBack"]}
-    if replay:
+    if replay and "program" not in json.load(open(replay))["replay"]:
+        progs = []
+    elif replay:
         progs = [json.load(open(replay))["replay"]["program"]]
     else:
         n, d = (150, 40) if tier == "quick" else (2000, 80)
@@ -149,6 +152,12 @@ def main():
     cov["uncovered"] = ["multi-coordinate mobilizers (Vector lockAt)", "prescription combined with constraints", "Motion::Steady / Sinusoid (irrational values)",
                         "the accelerations of free mobilities are decided by the harness's force oracle, not by the specification"]
     cov["exhaustive"] = False
+    # second route (engine E7): in the lattice dynamics configurations some mobilizers are locked at acceleration
+    # level; the force the lock reports must be exactly the one the exact specification computes for that mobility
+    if not replay or "config" in json.load(open(replay))["replay"]:
+        lc = check_lattice.run("C10", tier, rep, replay if replay and "config" in json.load(open(replay))["replay"] else None)
+        cov["lattice_route"] = {k: lc[k] for k in ("configurations", "dynamics_configurations", "skipped_integer_range")}
+        cov["states"] += lc["states"]; cov["transitions"] += lc["transitions"]
     return rep.finish("model_checking", cov, assumptions=[
         "one coordinate per mobilizer; integer values; Motions linear in integer time",
         "force oracle tolerance 1e-7 relative"])
